@@ -43,8 +43,8 @@ class StabilizerSampler(sampler.Sampler):
         results: list[cirq.Result] = []
         for param_resolver in cirq.to_resolvers(params):
             resolved_circuit = cirq.resolve_parameters(program, param_resolver)
-            measurements = self._run(resolved_circuit, repetitions=repetitions)
-            results.append(cirq.ResultDict(params=param_resolver, measurements=measurements))
+            records = self._run(resolved_circuit, repetitions=repetitions)
+            results.append(cirq.ResultDict(params=param_resolver, records=records))
         return results
 
     def _run(self, circuit: cirq.AbstractCircuit, repetitions: int) -> dict[str, np.ndarray]:
@@ -61,7 +61,11 @@ class StabilizerSampler(sampler.Sampler):
             for op in circuit.all_operations():
                 protocols.act_on(op, state)
 
-            for k, v in state.log_of_measurement_results.items():
-                measurements[k].append(np.array(v, dtype=np.uint8))
+            # every record of a key, not only the last one: a key may be measured more than once
+            for key, instances in state.classical_data.records.items():
+                measurements[str(key)].append(np.array(instances, dtype=np.uint8))
 
-        return {k: np.array(v) for k, v in measurements.items()}
+        return {
+            k: np.array(v) if v else np.zeros((0, 0, 0), dtype=np.uint8)
+            for k, v in measurements.items()
+        }
